@@ -126,7 +126,7 @@ CHECKS = {
         technique="path-sensitive effect summaries over registry operations (failed-call atomicity, coherent effects), identity-method rules",
         text="Static analysis. On every path of schedule() to a call that may raise, the net registry effect so far is empty or "
         "undone; every public mutator's net effect on the four collections is one of the coherent combinations (stop() clears all four on every path); emitter "
-        "construction is guarded by a membership test under the lock; watch equality and hash derive from one key, whose path component is the normalised path (wherever the normalisation is made). Equivalence "
+        "construction is guarded by a membership test under the lock; watch equality and hash derive from one key, whose path component is the normalised path (wherever the normalisation is made); the per-watch handler collection cannot hold a handler twice (shared with C04). Equivalence "
         "with a reference map over all call sequences is not decided.",
         ref="§3/C13",
     ),
